@@ -22,7 +22,7 @@ from .. import repo
 LEVEL = 'model_checking'
 
 DTYPES = ['float64', 'float32', 'int8', 'int16', 'int32', 'int64', 'uint8', 'uint16', 'uint32', 'uint64']
-UNITS = {'X1': 'M', 'X2': 'S', 'A': 'V/V', 'B': '', 'C': 'API', 'ZZ': ''}
+UNITS = {'X1': 'M', 'X2': '0.1in', 'A': 'ohm.m', 'B': '', 'C': 'API', 'ZZ': ''}          # units may contain dots
 
 
 def values_for(rng, dtype, n):
